@@ -30,7 +30,7 @@ type c12Case struct {
 	Dsts []string   `json:"dsts"` // rename destinations tried for every directory
 }
 
-var c12Universe = []string{"a", "ab", "a_", "a%", "A", "a b", ".a", "a.", "é", "_", "%", "aa", "b", "B", "a\\"}
+var c12Universe = []string{"a", "ab", "a_", "a%", "A", "a b", ".a", "a.", "é", "_", "%", "aa", "b", "B", "a\\", "a?", "a*", "[ab]", "a[b]", "?", "*"}
 
 // sqlLike reports whether name matches the LIKE pattern (ASCII case-insensitive, _ and %).
 func sqlLike(pattern, name string) bool {
@@ -276,7 +276,7 @@ func TestC12(t *testing.T) {
 			c.Tree = append(c.Tree, e)
 		}
 		// a group of confusable sibling directories, each with children
-		groups := [][]string{{"a", "a_", "ab", "A"}, {"a%", "ab", "aa", "a"}, {"a", "A", "a."}, {"_", "a", "b", "%"}, {"a b", "a", "ab"}, {"a\\", "a", "a_"}, {"é", "a", "B", "b"}}
+		groups := [][]string{{"a?", "ab", "a*", "abc"}, {"[ab]", "a", "b", "a[b]"}, {"*", "a", "?"}, {"a", "a_", "ab", "A"}, {"a%", "ab", "aa", "a"}, {"a", "A", "a."}, {"_", "a", "b", "%"}, {"a b", "a", "ab"}, {"a\\", "a", "a_"}, {"é", "a", "B", "b"}}
 		if rapid.IntRange(0, 9).Draw(t, "confusable") < 8 {
 			grp := rapid.SampledFrom(groups).Draw(t, "group")
 			base := "/"
